@@ -18,6 +18,10 @@ import Aegean.Proofs.C19Relabel
 import Aegean.Proofs.C19Labels
 import Aegean.Proofs.C19Greedy
 
+-- the closing tactic after `simp only […] <;>` is needed only for some (harmless) rewrites of the source
+set_option linter.unusedTactic false
+set_option linter.unreachableTactic false
+
 namespace Aegean.Properties.C19
 open Gen.C19 Aegean.Model.C19 Aegean.Spec.C19 Aegean.C19
 
